@@ -106,7 +106,11 @@ def run_isolated(fn, arg, timeout=120.0):
             os._exit(code)
     os.close(w)
     chunks = []
-    deadline = time.monotonic() + timeout
+    # The watchdog counts the child's own CPU time (so a machine that is busy with other
+    # jobs cannot turn a slow run into a harness error); a run that burns no CPU - a hang -
+    # is stopped by the wall-clock limit of four times that.
+    deadline = time.monotonic() + 4.0 * timeout
+    tick = os.sysconf("SC_CLK_TCK") if hasattr(os, "sysconf") else 100
     status = None
     with os.fdopen(r, "rb") as f:
         while True:
@@ -114,6 +118,14 @@ def run_isolated(fn, arg, timeout=120.0):
             if left <= 0:
                 status = "timeout"
                 break
+            try:
+                with open(f"/proc/{pid}/stat") as st:
+                    fields = st.read().rsplit(")", 1)[1].split()
+                if (int(fields[11]) + int(fields[12])) / tick > timeout:
+                    status = "timeout"
+                    break
+            except Exception:  # noqa: BLE001
+                pass
             rl, _, _ = select.select([f], [], [], min(left, 1.0))
             if rl:
                 b = f.read1(1 << 20) if hasattr(f, "read1") else f.read(1 << 20)
@@ -126,7 +138,7 @@ def run_isolated(fn, arg, timeout=120.0):
         except ProcessLookupError:
             pass
         os.waitpid(pid, 0)
-        return "timeout", f"run exceeded {timeout}s wall clock"
+        return "timeout", f"run exceeded {timeout}s of CPU time or {4 * timeout}s wall clock"
     os.waitpid(pid, 0)
     if not chunks:
         return "crash", "child died without a result (signal?)"
